@@ -147,13 +147,13 @@ func runC05(c *kit.Ctx) {
 			if !ok || len(r.Results) != 3 {
 				return
 			}
-			if kit.IsNilConst(r.Results[0]) {
-				k, ok := kit.ConstInt(r.Results[2])
+			if kit.IsNilConst(kit.Res(r, 0)) {
+				k, ok := kit.ConstInt(kit.Res(r, 2))
 				c.Check(ok && k == 0, vtc, "size-of-block", r.Pos(), "no block, size 0", "a nil block is returned with a non-zero size")
 				return
 			}
-			cv, ok := r.Results[2].(*ssa.Convert)
-			good := ok && kit.LenOf(cv.X) != nil && kit.LenOf(cv.X) == r.Results[0]
+			cv, ok := kit.Res(r, 2).(*ssa.Convert)
+			good := ok && kit.LenOf(cv.X) != nil && kit.LenOf(cv.X) == kit.Res(r, 0)
 			c.Check(good, vtc, "size-of-block", r.Pos(), "returned size is uint32(len()) of the returned block", "valuesToCellblocks returns a size that is not the length of the block it returns")
 		})
 		// Mutate.toProto appends that block iff size > 0 and returns that size
@@ -176,7 +176,7 @@ func runC05(c *kit.Ctx) {
 				// returned size is sz (or 0 when not cellblocks)
 				kit.Instrs(mtp, func(in ssa.Instruction) {
 					if r, ok := in.(*ssa.Return); ok {
-						v := kit.Strip(r.Results[2])
+						v := kit.Strip(kit.Res(r, 2))
 						if ph, ok := v.(*ssa.Phi); ok {
 							for _, l := range kit.PhiLeaves(ph) {
 								if k, isC := kit.ConstInt(l); isC && k == 0 {
